@@ -398,3 +398,126 @@ func TestVFC05DHCPPrograms(t *testing.T) {
 		}
 	})
 }
+
+// TestVFC05DHCPLastAddress: two clients compete for the last free address of the
+// pool, one confirming the offer it holds (REQUEST), the other just arriving
+// (DISCOVER), in parallel as server4 handles packets.  Whatever the order, at
+// most one of them may end up with an acknowledged lease of that address.
+func TestVFC05DHCPLastAddress(t *testing.T) {
+	vfkit.Begin(t)
+	rapid.Check(t, func(t *rapid.T) {
+		poolSize := rapid.IntRange(2, 4).Draw(t, "pool_size")
+		rounds := rapid.SampledFrom([]int{50, 200, 400}).Draw(t, "rounds")
+		if vfkit.Thorough() {
+			rounds *= 3
+		}
+		dir, err := vfC10TempDir()
+		if err != nil {
+			t.Fatalf("VERIF-INCONCLUSIVE temp dir: %v", err)
+		}
+		defer os.RemoveAll(dir)
+		gw := netip.MustParseAddr(vfC05DGateway)
+		first := netip.MustParseAddr(vfC05DStart)
+		last := first
+		for i := 1; i < poolSize; i++ {
+			last = last.Next()
+		}
+		s, err := Create(&ServerConfig{
+			ConfigModified: func() {}, Enabled: true, InterfaceName: "vf0", LocalDomainName: "lan", WorkDir: dir, DataDir: dir,
+			Conf4: V4ServerConf{
+				GatewayIP: gw, SubnetMask: netip.MustParseAddr(vfC05DMask), RangeStart: first, RangeEnd: last, LeaseDuration: 3600,
+			},
+		})
+		if err != nil {
+			t.Fatalf("VERIF-INCONCLUSIVE Create: %v", err)
+		}
+		v4 := s.srv4.(*v4Server)
+		v4.conf.dnsIPAddrs = []netip.Addr{gw}
+
+		var xid uint32
+		send := func(mt dhcpv4.MessageType, mac string, mods ...dhcpv4.Modifier) (yi netip.Addr, typ dhcpv4.MessageType) {
+			x := atomic.AddUint32(&xid, 1)
+			all := append([]dhcpv4.Modifier{
+				dhcpv4.WithTransactionID(dhcpv4.TransactionID{byte(x >> 24), byte(x >> 16), byte(x >> 8), byte(x)}),
+				dhcpv4.WithHwAddr(vfC10MAC(mac)), dhcpv4.WithMessageType(mt), dhcpv4.WithBroadcast(true),
+			}, mods...)
+			req, rerr := dhcpv4.New(all...)
+			if rerr != nil {
+				t.Fatalf("VERIF-INCONCLUSIVE building message: %v", rerr)
+			}
+			conn := &vfC10Conn{}
+			v4.packetHandler(conn, &net.UDPAddr{IP: net.IPv4bcast, Port: dhcpv4.ClientPort}, req)
+			if len(conn.pkts) == 0 {
+				return yi, dhcpv4.MessageTypeNone
+			}
+			resp, rerr := dhcpv4.FromBytes(conn.pkts[0])
+			if rerr != nil {
+				t.Fatalf("reply does not parse: %v", rerr)
+			}
+			if a, ok := netip.AddrFromSlice(resp.YourIPAddr.To4()); ok && !a.IsUnspecified() {
+				yi = a
+			}
+
+			return yi, resp.MessageType()
+		}
+		selecting := func(mac string, ip netip.Addr) (yi netip.Addr, typ dhcpv4.MessageType) {
+			return send(dhcpv4.MessageTypeRequest, mac,
+				dhcpv4.WithOption(dhcpv4.OptRequestedIPAddress(net.IP(ip.AsSlice()))),
+				dhcpv4.WithOption(dhcpv4.OptServerIdentifier(net.IP(gw.AsSlice()))))
+		}
+
+		both := 0
+		for r := 0; r < rounds; r++ {
+			if rerr := s.resetLeases(); rerr != nil {
+				t.Fatalf("VERIF-INCONCLUSIVE reset: %v", rerr)
+			}
+			// fill the pool up to the last address with acknowledged leases
+			for i := 0; i < poolSize-1; i++ {
+				mac := fmt.Sprintf("02:00:00:00:0f:%02x", i)
+				if yi, typ := send(dhcpv4.MessageTypeDiscover, mac); typ == dhcpv4.MessageTypeOffer {
+					selecting(mac, yi)
+				}
+			}
+			macA, macB := "02:00:00:00:0a:01", "02:00:00:00:0b:01"
+			x, typ := send(dhcpv4.MessageTypeDiscover, macA)
+			if typ != dhcpv4.MessageTypeOffer {
+				t.Fatalf("round %d: the first client got no offer for the last free address", r)
+			}
+
+			var wg sync.WaitGroup
+			var ackA, offB netip.Addr
+			var typA, typB dhcpv4.MessageType
+			start := make(chan struct{})
+			wg.Add(2)
+			go func() { defer wg.Done(); <-start; ackA, typA = selecting(macA, x) }()
+			go func() { defer wg.Done(); <-start; offB, typB = send(dhcpv4.MessageTypeDiscover, macB) }()
+			close(start)
+			wg.Wait()
+
+			aHolds := typA == dhcpv4.MessageTypeAck && ackA == x
+			bHolds := false
+			if typB == dhcpv4.MessageTypeOffer && offB == x {
+				if yi, typ2 := selecting(macB, x); typ2 == dhcpv4.MessageTypeAck && yi == x {
+					bHolds = true
+				}
+			}
+			vfC05D.Eval()
+			switch {
+			case aHolds && bHolds:
+				t.Fatalf("round %d: the address %s was acknowledged to %s (REQUEST for its offer) and then to %s (DISCOVER in parallel, then REQUEST): two clients hold it; "+
+					"the lease table lists %d leases", r, x, macA, macB, len(s.Leases()))
+			case aHolds:
+				vfC05D.Class("dhcp:last_address:first_client_kept_it")
+			case bHolds:
+				vfC05D.Class("dhcp:last_address:second_client_took_it")
+				both++
+			default:
+				vfC05D.Class("dhcp:last_address:neither")
+			}
+		}
+		vfC05D.Nontrivial(fmt.Sprintf("dhcp_last_address|%d|%d|%d", poolSize, rounds, both))
+		if vfC05D.WantSample("dhcp_last_address") {
+			vfC05D.Sample("dhcp_last_address", map[string]any{"pool_size": poolSize, "rounds": rounds, "second_client_took_it": both})
+		}
+	})
+}
